@@ -167,7 +167,7 @@ Proof.
     destruct (to_st e x) as [s| |] eqn:Es; cbn [bind] in Hto; try discriminate.
     destruct (seq_to (to_st e) r) as [ss'| |] eqn:Er; cbn [bind] in Hto; try discriminate.
     injection Hto as <-. cbn [dyns_of] in Hd.
-    destruct s as [| | | |d|]; try discriminate.
+    destruct s as [| | | |d| |]; try discriminate.
     destruct (dyns_of ss') as [ds'|] eqn:Ed; [|discriminate]. injection Hd as <-.
     cbn [seq_from]. rewrite (IH Hwf x _ Hx Es). cbn [obind].
     rewrite (IHl ss' ds' Hr eq_refl Ed). reflexivity.
@@ -582,7 +582,9 @@ Proof.
     + now rewrite H.
     + destruct H as [ss [ds [E1 E2]]]. rewrite E1. cbn [bind]. rewrite E2. eauto.
   - assert (Hno : existsb (exposes_none e) l = false).
-    { destruct e; try discriminate; induction l; cbn; auto. }
+    { destruct e; try discriminate;
+        (induction l as [|a r IHr]; [reflexivity|]; cbn [forallb] in Ht; apply andb_true_iff in Ht as [_ Ht];
+         cbn [existsb exposes_none orb]; exact (IHr Ht)). }
     rewrite Hno. destruct e; try discriminate; cbn [prim_seq_to].
     + destruct (prims_of_typed p l Ht) as [zs ->]. eauto.
     + destruct (strs_of_typed l Ht) as [ss ->]. eauto.
@@ -631,6 +633,12 @@ Proof.
   - specialize (IH HPr Hwr (S idx) i p Ht). destruct p; exact IH.
 Qed.
 
+Lemma enum_discs_from_length : forall vs z, length (enum_discs_from z vs) = length vs.
+Proof.
+  induction vs as [|[n o] r IH]; intros z; [reflexivity|]. cbn [enum_discs_from length]. cbv zeta. cbn [length].
+  now rewrite IH.
+Qed.
+
 Lemma total_all : forall t, total_at t.
 Proof.
   induction t using ty_ind'; unfold total_at; intros Hwf v Ht.
@@ -659,9 +667,7 @@ Proof.
     + destruct Hs as [d Hd]. rewrite Hd. cbn [bind]. eexists; split; [reflexivity|]. eauto.
   - destruct v; try discriminate. cbn [has_type] in Ht. apply Nat.ltb_lt in Ht.
     cbn [exposes_none to_st].
-    assert (Hlen : length (enum_discs e) = length (e_variants e)).
-    { unfold enum_discs. generalize 0. induction (e_variants e) as [|[n o] r IHr]; intros z; [reflexivity|].
-      cbn [enum_discs_from length]. now rewrite IHr. }
+    assert (Hlen : length (enum_discs e) = length (e_variants e)) by apply enum_discs_from_length.
     destruct (nth_error (enum_discs e) i) eqn:En.
     + eexists; split; [reflexivity|]. eauto.
     + apply nth_error_None in En. lia.
